@@ -89,7 +89,7 @@ theorem full : (t : Ty) → (v : PyVal) → Canon t v → Full t v
       exact ⟨bs, h1, h2, fun p => (h3 p).1, h4⟩)
     subst hlen
     refine ⟨bs, ?_, ?_, ?_, ?_⟩
-    · simp [encode, PyVal.len?, PyVal.seq?, hb, he]
+    · simp [encode, PyVal.len?, PyVal.seq?, hb, encodeList_argOf_canon t vs hall, he]
     · intro rest
       simp [decode, hd rest, hb]
     · simp only [PosWidth]
@@ -153,7 +153,7 @@ theorem fullm : (ms : Members) → (kvs : List (Name × PyVal)) → CanonMembers
       | nil => exact absurd rfl hne
       | cons _ _ => rfl
     refine ⟨a ++ r, ?_, ?_, ?_, ?_⟩
-    · simp [encodeMembersSeq, ha, hr, bind, Except.bind]
+    · simp [encodeMembersSeq, argOf_of_canon t v hc, ha, hr, bind, Except.bind]
     · intro rest' acc hacc
       have hset : dictSet acc k v = acc ++ [(k, v)] := by
         apply dictSet_fresh
